@@ -1,5 +1,6 @@
 """C17 - a failing SAT backend never turns into an answer (library level: Unknown injected at each
 SAT-call position of each query; the text-level failure kinds are exercised by C16's reply stream)."""
+import re
 from solvers_common import *
 
 
@@ -27,8 +28,102 @@ def extra(c, sp, stats):
         stats["aborted"] = stats.get("aborted", 0) + 1
 
 
+ANSWER = re.compile(rb"^(YES|NO|w( |$)|\[)", re.M)
+CLI_PROBLEMS = ["DC-CO", "DC-PR", "DS-PR", "SE-PR", "DC-ST", "DS-ST", "SE-ST", "DC-SST", "DS-SST", "SE-SST",
+                "DC-STG", "DS-STG", "SE-STG", "DC-ID", "DS-ID", "SE-ID"]
+KINDS = ["exit", "nostatus", "truncated", "garbage"]
+
+
+def cli_faults(ctx, stats):
+    """Process level: both binaries with the verified reference solver as external backend, which is
+    told to misbehave at its k-th invocation (exit without output, no status line, model truncated
+    before the terminating 0, garbage line).  Expected: non-zero exit, no answer on stdout."""
+    import random
+    bins = build_bins(ctx)
+    vdpll = os.path.join(DRIVER, "vdpll")
+    if not bins or not os.path.exists(vdpll):
+        ctx.violation("command-line tools or driver/vdpll not built", "build failure\n", found_input=False)
+        return
+    rnd = random.Random(ctx.seed * 7 + 5)
+    n_files = 40 if ctx.thorough else 10
+    jobs = []
+    wd = os.path.join(ctx.work, "cli")
+    os.makedirs(wd, exist_ok=True)
+    for i in range(n_files):
+        n = rnd.randint(2, 5)
+        atts = sorted({(rnd.randint(1, n), rnd.randint(1, n)) for _ in range(rnd.randint(1, 2 * n))})
+        f = os.path.join(wd, "f%d.af" % i)
+        open(f, "w").write("p af %d\n" % n + "".join("%d %d\n" % a for a in atts))
+        for p in rnd.sample(CLI_PROBLEMS, 5 if ctx.thorough else 4):
+            jobs.append((f, n, atts, p, str(rnd.randint(1, n)), 0))  # the ICCMA wrapper has no external-solver option
+
+    def cmd(job, cnt, extra):
+        f, n, atts, p, a, w = job
+        exe = bins[w]
+        c = [exe] + ([] if w == 1 else ["solve", "-r", "iccma23", "--logging-level", "off"]) + ["-f", f, "-p", p]
+        if not p.startswith("SE"):
+            c += ["-a", a]
+        c += ["--external-sat-solver", vdpll] + ["--external-sat-solver-opt=" + x for x in ["--counter", cnt] + extra]
+        return c
+
+    import subprocess, concurrent.futures
+
+    def run(c):
+        try:
+            r = subprocess.run(c, stdout=subprocess.PIPE, stderr=subprocess.DEVNULL, timeout=300)
+            return r.returncode, r.stdout
+        except subprocess.TimeoutExpired:
+            return "timeout", b""
+
+    def one(idx_job):
+        idx, job = idx_job
+        out = []
+        cnt = os.path.join(wd, "cnt%d" % idx)
+        if os.path.exists(cnt):
+            os.remove(cnt)
+        rc, so = run(cmd(job, cnt, []))
+        try:
+            k = int(open(cnt).read().strip())
+        except Exception:
+            k = 0
+        out.append(("free", 0, "", rc, so))
+        for pos in range(1, min(k, 4) + 1):
+            for kind in KINDS:
+                if os.path.exists(cnt):
+                    os.remove(cnt)
+                rc2, so2 = run(cmd(job, cnt, ["--fail-at", str(pos), "--kind", kind]))
+                out.append(("fault", pos, kind, rc2, so2))
+        return job, k, out
+
+    with concurrent.futures.ThreadPoolExecutor(max_workers=NCPU) as ex:
+        results = list(ex.map(one, enumerate(jobs)))
+    st = {"invocations": 0, "fault_runs": 0, "by_kind": {}, "fault_free_ok": 0}
+    for job, k, out in results:
+        f, n, atts, p, a, w = job
+        desc = "%s -p %s -a %s on `p af %d` %s" % (["crustabri solve", "crustabri_iccma23"][w], p, a, n, " ".join("%d>%d" % x for x in atts))
+        for what, pos, kind, rc, so in out:
+            st["invocations"] += 1
+            body = b"".join(l for l in so.splitlines(True) if not l.startswith(b"!["))
+            if what == "free":
+                if rc == 0:
+                    st["fault_free_ok"] += 1
+                else:
+                    ctx.violation("fault-free run through the external backend failed (exit %s): %s" % (rc, desc), desc + "\n", found_input=True, key="cli-free")
+                continue
+            st["fault_runs"] += 1
+            st["by_kind"][kind] = st["by_kind"].get(kind, 0) + 1
+            if rc == 0 or ANSWER.search(body):
+                ctx.violation("backend failure `%s` at SAT call %d of %d turned into an answer: exit %s, stdout %r (%s)"
+                              % (kind, pos, k, rc, body[:60], desc), desc + "\nfault %s at call %d\nstdout %r\n" % (kind, pos, so), found_input=True,
+                              key="cli-" + kind)
+    stats["cli_level"] = st
+
+
 def main(ctx):
     total = 24000 if ctx.thorough else 2400
+    cli_stats = {}
+    cli_faults(ctx, cli_stats)
+    ctx.cov["cli_level_fault_injection"] = cli_stats.get("cli_level", {})
     static_check(
         ctx, "static", total, extra="--faults", judge=judge, extra_stats=extra,
         rule="generated frameworks x all 18 library problems x encoders x with/without certificate; each query is first run fault-free to count its SAT calls K, then re-run once per call position k < K (all positions when K <= 10, else first/last two and six random ones) with the k-th answer replaced by Unknown through a SatSolver wrapper injected by the public factory API; outcome must be an abort (panic) with the Unknown as the last SAT event, and the whole trace is replayed on Model.Solvers, for which C17_unknown_aborts is proved",
